@@ -15,15 +15,24 @@
 (*   [proc, ev |-> "execute", exe, nth, digest]  the nth execution of      *)
 (*                                            executor exe (per process)   *)
 (*   [proc, ev |-> "failed", key, digest]     create panicked / crashed    *)
+(*   [ev |-> "size", key |-> family, nth |-> k, size]  the size of the     *)
+(*                                            printed artifact for member  *)
+(*                                            k of a scaling family whose  *)
+(*                                            source length is linear in k *)
+(* Complexity clause ("no super-polynomial blow-up"): within a family the  *)
+(* sizes of consecutive members k, k+1 (k >= 8) must not *all* grow by a   *)
+(* factor of 1.7 or more - a polynomial of degree <= 4 has ratios below    *)
+(* (1 + 1/8)^4 = 1.6 there, an exponential does not.                       *)
 (***************************************************************************)
 EXTENDS Integers, Sequences, TLC, Json, IOUtils
 
 Cases == ndJsonDeserialize(IOEnv.CASES)
-VARIABLES t, l, art, first, verdict, why
-vars == <<t, l, art, first, verdict, why>>
+VARIABLES t, l, art, first, sizes, verdict, why
+vars == <<t, l, art, first, sizes, verdict, why>>
 Ev == Cases[t].events
 
-Init == t \in 1..Len(Cases) /\ l = 1 /\ art = <<>> /\ first = <<>> /\ verdict = "run" /\ why = <<>>
+Init == /\ t \in 1..Len(Cases) /\ l = 1 /\ art = <<>> /\ first = <<>> /\ sizes = <<>>
+        /\ verdict = "run" /\ why = <<>>
 
 Observe ==
   /\ verdict = "run" /\ l <= Len(Ev) /\ UNCHANGED t
@@ -31,27 +40,43 @@ Observe ==
      CASE e.ev = "artifact" ->
             IF e.key \in DOMAIN art
             THEN IF art[e.key].digest = e.digest
-                 THEN l' = l + 1 /\ UNCHANGED <<art, first, verdict, why>>
-                 ELSE /\ verdict' = "rejected" /\ UNCHANGED <<art, first, l>>
+                 THEN l' = l + 1 /\ UNCHANGED <<art, first, sizes, verdict, why>>
+                 ELSE /\ verdict' = "rejected" /\ UNCHANGED <<art, first, sizes, l>>
                       /\ why' = <<"same-key-different-artifact", e.key, "process", art[e.key].proc, art[e.key].digest,
                                   "process", e.proc, e.digest>>
             ELSE /\ art' = (e.key :> [digest |-> e.digest, proc |-> e.proc]) @@ art
-                 /\ l' = l + 1 /\ UNCHANGED <<first, verdict, why>>
+                 /\ l' = l + 1 /\ UNCHANGED <<first, sizes, verdict, why>>
        [] e.ev = "execute" ->
             LET k == <<e.proc, e.exe>> IN
             IF k \in DOMAIN first
             THEN IF first[k] = e.digest
-                 THEN l' = l + 1 /\ UNCHANGED <<art, first, verdict, why>>
-                 ELSE /\ verdict' = "rejected" /\ UNCHANGED <<art, first, l>>
+                 THEN l' = l + 1 /\ UNCHANGED <<art, first, sizes, verdict, why>>
+                 ELSE /\ verdict' = "rejected" /\ UNCHANGED <<art, first, sizes, l>>
                       /\ why' = <<"executor-changed-by-execution", e.exe, e.nth, first[k], e.digest>>
             ELSE /\ first' = (k :> e.digest) @@ first
-                 /\ l' = l + 1 /\ UNCHANGED <<art, verdict, why>>
+                 /\ l' = l + 1 /\ UNCHANGED <<art, sizes, verdict, why>>
+       [] e.ev = "size" ->
+            /\ sizes' = (<<e.key, e.nth>> :> e.size) @@ sizes
+            /\ l' = l + 1 /\ UNCHANGED <<art, first, verdict, why>>
        [] OTHER ->
             /\ verdict' = "rejected" /\ why' = <<"compilation-not-total", e.key, e.digest>>
-            /\ UNCHANGED <<art, first, l>>
+            /\ UNCHANGED <<art, first, sizes, l>>
 
+\* families whose every consecutive pair of members grows by a factor >= 1.7
+Families == {k[1] : k \in DOMAIN sizes}
+Members(f) == {k[2] : k \in {x \in DOMAIN sizes : x[1] = f}}
+Exponential(f) ==
+  LET ms == Members(f)  pairs == {m \in ms : m + 1 \in ms} IN
+  /\ pairs # {}
+  /\ \A m \in pairs : sizes[<<f, m + 1>>] * 10 >= sizes[<<f, m>>] * 17
 Done == /\ verdict = "run" /\ l = Len(Ev) + 1
-        /\ verdict' = "accepted" /\ why' = <<"deterministic", l - 1>> /\ UNCHANGED <<t, l, art, first>>
+        /\ IF \E f \in Families : Exponential(f)
+           THEN LET f == CHOOSE f \in Families : Exponential(f) IN
+                verdict' = "rejected"
+                /\ why' = <<"super-polynomial-growth-of-the-artifact", f,
+                            [m \in Members(f) |-> sizes[<<f, m>>]]>>
+           ELSE verdict' = "accepted" /\ why' = <<"deterministic", l - 1>>
+        /\ UNCHANGED <<t, l, art, first, sizes>>
 
 Next == Observe \/ Done
 Spec == Init /\ [][Next]_vars
